@@ -935,6 +935,45 @@ def run_history(ctx, cnfgen, quick):
                     continue
                 snaps.append(c)
     run_small(ctx, cnfgen, quick, snaps, 'history-')
+    # ---- several formulas rendered one after the other in ONE process: same kind, same number of variables, same header, other
+    # names and other rows -- each rendering must show ITS formula (nothing may be carried over from the rendering before)
+    for is_opb in (False, True):
+        for nv in (5, 63, 64, 70, 130) if quick else (5, 33, 63, 64, 65, 70, 130, 257, 1025):
+            r = random.Random(ctx.rng.randrange(1 << 30))
+            made = []
+            for fam in ('a', 'b', 'c'):
+                F = (OPB if is_opb else CNF)(description='sequence of renderings')
+                if fam == 'c':
+                    F.update_variable_number(nv)                      # default names
+                else:
+                    F.new_block(nv, label=fam + '_{{{}}}')  # names a_{1} ...
+                for _ in range(r.randint(3, 8)):
+                    lits = [v * r.choice([1, -1]) for v in r.sample(range(1, nv + 1), r.randint(1, min(4, nv)))]
+                    if is_opb:
+                        F.add_constraint([(r.randint(1, 3), l) for l in lits] + [r.choice(['>=', '==']), r.randint(0, 3)])
+                    else:
+                        F.add_clause(lits)
+                made.append((fam, F))
+            for order in (made, made[::-1]):
+                for fam, F in order:
+                    for document in (False, True):
+                        labels = list(F.all_variable_labels(default_label_format='x_{}'))
+                        descr = dict(kind='OPB' if is_opb else 'CNF', variables=nv, names=fam, document=document,
+                                     sequence='rendered after %s in the same process' % [f for f, _ in order],
+                                     constraints=[list(c) for c in mem_constraints(F, is_opb)][:12])
+                        ctx.count('history-sequence', (is_opb, nv, fam, document, order is made), True, sample=descr)
+                        try:
+                            if document:
+                                buf = io.StringIO()
+                                F.to_file(buf, fileformat='latex')
+                                text = buf.getvalue()
+                            else:
+                                text = F.to_latex()
+                        except Exception as e:  # noqa
+                            ctx.violation('counterexample', 'rendering raised %s' % type(e).__name__, dict(input=descr), True, site='to_latex',
+                                          cls='sequence-raises-' + type(e).__name__)
+                            continue
+                        direct_latex(ctx, descr, text, mem_constraints(F, is_opb), is_opb, labels, document)
     ctx.note('history: %.0f s' % (time.time() - t0))
 
 
